@@ -1,5 +1,6 @@
 import Dcg.Proofs.Repr
 import Dcg.Proofs.Escape
+import Dcg.Props.C10
 /-
 C01 — generation terminates and every emitted module is valid Python.
 
@@ -61,5 +62,29 @@ theorem growing_bounded_stabilises (U : Nat) (sz : Nat → Nat)
 example : ∃ i, i ≤ 3 ∧ (fun n => min n 2) (i + 1) = (fun n => min n 2) i :=
   growing_bounded_stabilises 3 (fun n => min n 2)
     (by intro i; show min i 2 ≤ min (i + 1) 2; omega) (by intro i; show min i 2 ≤ 3; omega)
+
+/-- **Template text is lexically closed around every interpolation site** (proved in
+`Dcg/Props/C10.lean` by the kernel over the site table regenerated from the Jinja sources on this
+run): every site stands in exactly one lexical state that its value class may occupy, schema text
+reaches a docstring only through `escape_docstring`, `#`-comment sites are fed line by line from
+`str.splitlines()`, and every template ends in code state (or in a comment closed by the newline
+that joins models). A template edit that moves a site into another lexical context breaks this
+obligation. -/
+theorem template_sites_lexically_safe :
+    (Dcg.Gen.Templates.sites.all (fun s => match s.states with
+      | [st] => Dcg.Model.Sites.allowed (Dcg.Model.Sites.classify s.expr s.filters) st
+      | _ => false) = true) ∧
+    (Dcg.Gen.Templates.finals.all (fun f => f.2.all (fun st => st == "code" || st == "comment")) = true) ∧
+    ((Dcg.Gen.Templates.sites.filter (fun s => Dcg.Model.Sites.classifyExpr s.expr == .commentLine)).all (fun s =>
+      Dcg.Gen.Templates.sites.any (fun h => h.template == s.template &&
+        Dcg.Model.Sites.reviewedLineLoops.contains h.expr)) = true) :=
+  ⟨Dcg.Props.C10.site_safe, Dcg.Props.C10.templates_end_neutral, Dcg.Props.C10.comment_lines_from_splitlines⟩
+
+/-- the docstring around an escaped description is one literal that ends where the template ends it -/
+theorem docstring_slot_exact (text pre post rest : List Char)
+    (hpre : ∀ c ∈ pre, c = ' ' ∨ c = '\n') (hpost : ∀ c ∈ post, c = ' ') :
+    scanLong '"' (pre ++ Dcg.Model.Escape.escDoc 0 text ++ '\n' :: post ++ ['"', '"', '"'] ++ rest) =
+      some (pre ++ Dcg.Model.Escape.normNL (text ++ ['\n']) ++ post, rest) :=
+  Dcg.Props.C10.docstring_literal_exact text pre post rest hpre hpost
 
 end Dcg.Props.C01
